@@ -1,4 +1,6 @@
 import Rp2.Proofs.Flows
+import Rp2.Proofs.Reconcile
+import Rp2.Proofs.ReconcileToDate
 import Rp2.Proofs.HolderTotals
 import Rp2.Proofs.BalanceColumns
 /-! # C07 — account balances equal the flows of each account and reconcile with unsold lots -/
@@ -37,4 +39,33 @@ theorem model_holder_totals (holderOf : Nat → String) (bals : List BalRow) :
     (∀ h, h ∈ (holderTotals holderOf bals).map (·.1) ↔ ∃ b ∈ bals, holderOf b.acct = h) ∧
     (∀ h, (∃ b ∈ bals, holderOf b.acct = h) → ∃ v, (h, v) ∈ holderTotals holderOf bals ∧
       v = (bals.filter (fun b => holderOf b.acct == h)).foldl (fun s b => dadd s (ofUnits b.fin)) 0) := holderTotals_spec holderOf bals
+/-- **the final balances add up to what the tax computation leaves unconsumed in lots** (executable model, no to-date): when lot matching
+    and the balance replay both succeed, Σ final balances = Σ acquired − Σ (amounts the fractions take out of lots), provided an
+    exchange-supplied `crypto_out_with_fee` equals amount + fee and every fee-bearing transfer is taxable (its fiat fee does not vanish at
+    13 decimals — finding F12 is what happens otherwise). This joins the two halves of the model: the engine (C01–C03) and the balance
+    replay (C07/C08). -/
+theorem model_balances_reconcile_with_lots (sched : List (Int × Method)) (allowNeg : Bool) (ins : List InTx) (outs : List OutTx) (intras : List IntraTx)
+    (fs : List Fraction) (bs : List BalRow)
+    (hord : SheetOrder ins) (hy : SameInstantSameYear (taxableEvents ins outs intras))
+    (hf : computeFractions sched ins outs intras = .ok fs) (hb : balances allowNeg none ins outs intras = .ok bs)
+    (hcons : ∀ o ∈ outs, o.outWithFee = o.outNoFee + o.fee)
+    (hvis : ∀ x ∈ intras, gt13 x.fiatFee 0 = false → x.sent - x.recv = 0) :
+    sumFin bs = (ins.map (·.amount)).sum - (fs.map (fun f => if f.lot.isSome then f.amt else (0 : Int))).sum :=
+  balances_reconcile_with_lots sched allowNeg ins outs intras fs bs hord hy hf hb hcons hvis
+/-- the sum of the final balances is the net flow of the replayed transactions (any to-date) -/
+theorem model_sum_of_final_balances (allowNeg : Bool) (to : Option Int) (ins : List InTx) (outs : List OutTx) (intras : List IntraTx) (bs : List BalRow)
+    (h : balances allowNeg to ins outs intras = .ok bs) : sumFin bs = ((balanceOrder to ins outs intras).map netOf).sum :=
+  balances_sumFin allowNeg to ins outs intras bs h
+/-- … and with a to-date `T`, under monotone local dates (hypothesis LocalDatesMonotone; finding F6 is its failure): the final balances
+    reported for `T` add up to everything acquired up to `T` minus what the fractions dated up to `T` take out of lots -/
+theorem model_balances_reconcile_with_lots_to_date (sched : List (Int × Method)) (allowNeg : Bool) (ins : List InTx) (outs : List OutTx)
+    (intras : List IntraTx) (fs : List Fraction) (bs : List BalRow) (T : Int)
+    (hord : SheetOrder ins) (hy : SameInstantSameYear (taxableEvents ins outs intras)) (hm : DatesMonotone ins outs intras)
+    (hmb : (sortByTs (fun t : AnyTx => t.ts.us) (ins.map AnyTx.i ++ intras.map AnyTx.x ++ outs.map AnyTx.o)).Pairwise (fun a b => a.ts.day ≤ b.ts.day))
+    (hf : computeFractions sched ins outs intras = .ok fs) (hb : balances allowNeg (some T) ins outs intras = .ok bs)
+    (hcons : ∀ o ∈ outs, o.outWithFee = o.outNoFee + o.fee)
+    (hvis : ∀ x ∈ intras, gt13 x.fiatFee 0 = false → x.sent - x.recv = 0) :
+    sumFin bs = ((ins.filter (keepIn T)).map (·.amount)).sum -
+      ((fs.filter (fun f => decide (f.ev.ts.day ≤ T))).map (fun f => if f.lot.isSome then f.amt else (0 : Int))).sum :=
+  balances_reconcile_with_lots_to_date sched allowNeg ins outs intras fs bs T hord hy hm hmb hf hb hcons hvis
 end Rp2.C07
